@@ -111,6 +111,10 @@ def extract_window(ctx, prog, rule):
                     m = strip_casts(n[2])
                     okhi = m[0] == "binop" and m[1] == "Add" and is_self_field(m[2], "offset") and strip_casts(m[3]) == ("param", 2)
             okn = dst[1] == "to" and strip_casts(dst[3])[0] == "binop" and strip_casts(dst[3])[1] == "Sub" and strip_casts(strip_casts(dst[3])[2]) == hi and strip_casts(strip_casts(dst[3])[3]) == lo
+            if not okn and dst[1] == "to":
+                # the window is cut to the length of the source slice itself
+                n_ = strip_casts(dst[3])
+                okn = n_[0] == "call" and n_[1].endswith("::len") and tree_str(strip_deep(n_[2][0])) == tree_str(strip_deep(strip(R.operand(t["args"][1]))))
             ok_src = oklo and okhi and okn
     ctx.ob(rule, "window/source-bytes", ok_src, "window[..end-start] <- buffer[offset/8 .. (offset+bits+7)/8]")
     offs = field_assignments(f, "bs_read::ByteStreamReadBuffer", "offset")
